@@ -106,6 +106,23 @@ impl Case {
     pub fn set_fee(&mut self, f: u64) {
         self.body_mut().set(2, Cb::uint(f));
     }
+    /// pay `extra` more fee out of the first spent output (keeps the balance; used when a mutator makes the
+    /// transaction larger, so that the minimum fee stays covered)
+    pub fn pad_fee(&mut self, extra: u64) {
+        if self.is_byron() {
+            return;
+        }
+        if let Some(u) = self.utxo_index_of(0, 0) {
+            if let Some(v) = self.utxo_value_mut(u) {
+                let c = val_coin(v);
+                if let Some(nc) = c.checked_add(extra) {
+                    val_set_coin(v, nc);
+                    let f = self.fee();
+                    self.set_fee(f + extra);
+                }
+            }
+        }
+    }
     /// index of the output with the largest ada amount
     pub fn richest_output(&mut self) -> usize {
         let n = self.n_outputs();
@@ -171,6 +188,72 @@ impl Case {
             self.keys.pop();
         }
         blake224(&k.pk).to_vec()
+    }
+
+    // ---- Byron: another input of a chosen address kind, owned by a fresh key of ours
+    /// `redeem`: redeem-address UTxO (else public-key address); `front`: listed first (else last)
+    pub fn byron_add_input(&mut self, redeem: bool, front: bool, coin: u64, tag: u8) -> Option<()> {
+        use pallas_addresses::byron::{AddrType, AddressPayload, SpendingData};
+        use pallas_codec::minicbor::{self, bytes::ByteVec};
+        if !self.is_byron() {
+            return None;
+        }
+        let k = self.new_key(&[b'b', tag]);
+        let pk: Vec<u8> = if redeem { k.pk.to_vec() } else { [&k.pk[..], &[0u8; 32][..]].concat() };
+        let payload = if redeem {
+            AddressPayload::new(AddrType::Redeem, SpendingData::Redeem(ByteVec::from(pk.clone())), vec![].into())
+        } else {
+            AddressPayload::new(AddrType::PubKey, SpendingData::PubKey(ByteVec::from(pk.clone())), vec![].into())
+        };
+        let payload = minicbor::to_vec(&payload).ok()?;
+        let hash = crate::case::blake256(&[b'B', tag, redeem as u8]);
+        self.utxo.push(UtxoEntry {
+            hash,
+            idx: 0,
+            kind: "byron",
+            out: Cb::array(vec![Cb::array(vec![Cb::tag(24, Cb::bytes(&payload)), Cb::uint(3430631884)]), Cb::uint(coin)]),
+            role: "in",
+        });
+        let input = Cb::array(vec![Cb::uint(0), Cb::tag(24, Cb::bytes(&Cb::array(vec![Cb::bytes(&hash), Cb::uint(0)]).to_vec()))]);
+        let ins = self.body_mut().items_mut()?.get_mut(0)?.items_mut()?;
+        if front {
+            ins.insert(0, input);
+        } else {
+            ins.push(input);
+        }
+        let wit = Cb::array(vec![
+            Cb::uint(if redeem { 2 } else { 0 }),
+            Cb::tag(24, Cb::bytes(&Cb::array(vec![Cb::bytes(&pk), Cb::bytes(&[0u8; 64])]).to_vec())),
+        ]);
+        self.tx.items_mut()?.get_mut(1)?.items_mut()?.push(wit);
+        self.resign();
+        Some(())
+    }
+    /// Byron: make inputs - outputs equal to `minfee + delta` (None: exactly zero) by resizing the richest output
+    pub fn byron_set_fee(&mut self, delta: Option<i128>) -> Option<()> {
+        use pallas_validate::utils::MultiEraProtocolParameters as P;
+        let P::Byron(pp) = self.prot_params() else { return None };
+        let n = self.n_outputs();
+        let i = self.richest_output();
+        let total_in: u128 = (0..self.input_refs(0).len())
+            .filter_map(|k| self.utxo_index_of(0, k))
+            .map(|u| self.clone().utxo_value_mut(u).map(|v| val_coin(v)).unwrap_or(0) as u128)
+            .sum();
+        let others: u128 = (0..n).filter(|k| *k != i).map(|k| self.out_coin(k) as u128).sum();
+        for _ in 0..4 {
+            let size = (self.tx_bytes().len() - 1) as u128;
+            let fee = match delta {
+                Some(d) => (pp.summand as u128 + pp.multiplier as u128 * size) as i128 + d,
+                None => 0,
+            };
+            let want = total_in as i128 - others as i128 - fee;
+            if want <= 0 || want > MAX as i128 {
+                return None;
+            }
+            val_set_coin(self.out_value_mut(i)?, want as u64);
+            self.resign();
+        }
+        Some(())
     }
 
     // ---- minting with an always-true native policy (ScriptAll [])
@@ -301,6 +384,15 @@ pub fn c33(base: &Case, rng: &mut Rng, thorough: bool) -> Vec<Mutant> {
                 out.push(m(&format!("byron-wit/{label}"), c));
             }
         }
+        // a second input of the other address kind, first / last
+        for front in [false, true] {
+            for redeem in [false, true] {
+                let mut c = base.clone();
+                if c.byron_add_input(redeem, front, MAX / 2, 3).is_some() {
+                    out.push(m(&format!("byron-extra-input/{}/{}", if redeem { "redeem" } else { "pubkey" }, if front { "front" } else { "back" }), c));
+                }
+            }
+        }
         // empty collections / missing outputs
         let mut c = base.clone();
         c.utxo.clear();
@@ -359,6 +451,28 @@ pub fn c33(base: &Case, rng: &mut Rng, thorough: bool) -> Vec<Mutant> {
             out.push(m(&format!("mint/{label}"), c));
         }
     }
+    if base.supports_mint() {
+        // sums that come out at exactly zero next to a sibling asset of the same policy
+        for (inq, mq, sin, sout, label) in [(5u64, -5i128, 7u64, 7u64, "burn-entire-quantity"), (5, -5, 7, 0, "burn-entire-quantity/sibling-vanishes"), (1, -1, 1, 1, "burn-entire-1")] {
+            let mut c = base.clone();
+            let p = c.ensure_trivial_policy();
+            if let Some(u) = c.utxo_index_of(0, 0) {
+                val_set_asset(c.utxo_value_mut(u).unwrap(), &p, b"M", Cb::uint(inq));
+                val_set_asset(c.utxo_value_mut(u).unwrap(), &p, b"S", Cb::uint(sin));
+                c.add_mint(&p, b"M", mq);
+                if sout > 0 {
+                    let i = c.richest_output();
+                    val_set_asset(c.out_value_mut(i).unwrap(), &p, b"S", Cb::uint(sout));
+                }
+                c.resign();
+                out.push(m(&format!("mint-sibling/{label}"), c));
+            }
+        }
+    }
+    // the phase-2 validity flag cleared (it is outside the body: signatures stay valid)
+    let mut c = base.clone();
+    c.tx.items_mut().unwrap()[2] = Cb::Simple(20, false);
+    out.push(m("is-valid-false", c));
     // two spent outputs whose ada sum wraps
     let mut c = base.clone();
     if let (Some(u0), Some(u1)) = (c.utxo_index_of(0, 0), c.add_input_copy(2)) {
@@ -636,23 +750,30 @@ pub fn c34(base: &Case, rng: &mut Rng, thorough: bool) -> Vec<Mutant> {
     }
     if base.is_byron() {
         // the difference inputs - outputs placed exactly at / one below the minimum fee
-        use pallas_validate::utils::MultiEraProtocolParameters as P;
-        if let P::Byron(pp) = base.prot_params() {
-            for (d, label) in [(0i128, "byron-fee=min"), (-1, "byron-fee=min-1")] {
-                let mut c = base.clone();
-                let i = c.richest_output();
-                let others: u128 = (0..n).filter(|k| *k != i).map(|k| c.out_coin(k) as u128).sum();
-                for _ in 0..4 {
-                    let size = (c.tx_bytes().len() - 1) as u128;
-                    let fee = (pp.summand as u128 + pp.multiplier as u128 * size) as i128 + d;
-                    let want = total_in as i128 - others as i128 - fee;
-                    if want <= 0 {
-                        break;
-                    }
-                    val_set_coin(c.out_value_mut(i).unwrap(), want as u64);
-                    c.resign();
-                }
+        for (d, label) in [(Some(0i128), "byron-fee=min"), (Some(-1), "byron-fee=min-1"), (None, "byron-fee=0")] {
+            let mut c = base.clone();
+            if c.byron_set_fee(d).is_some() {
                 out.push(m(label, c));
+            }
+        }
+        // a second input of the OTHER address kind (redeem vs public key), listed first / last: the
+        // redeem exemption from the minimum fee only holds when every input is a redeem address
+        let base_redeem = base.run().proj["redeemOnly"].as_bool().unwrap_or(false);
+        for front in [false, true] {
+            for (d, label) in [(Some(0i128), "fee=min"), (Some(-1), "fee=min-1"), (None, "fee=0")] {
+                let mut c = base.clone();
+                if c.byron_add_input(!base_redeem, front, 7_000_000, 1).is_none() {
+                    continue;
+                }
+                if c.byron_set_fee(d).is_some() {
+                    let kinds = match (base_redeem, front) {
+                        (true, false) => "redeem,pubkey",
+                        (true, true) => "pubkey,redeem",
+                        (false, false) => "pubkey,redeem",
+                        (false, true) => "redeem,pubkey",
+                    };
+                    out.push(m(&format!("byron-mixed-inputs/{kinds}/{label}"), c));
+                }
             }
         }
         return out;
@@ -676,44 +797,63 @@ pub fn c34(base: &Case, rng: &mut Rng, thorough: bool) -> Vec<Mutant> {
         // minting with an always-true native policy: balanced and unbalanced variants,
         // burns of assets absent from the inputs, quantities near 2^63 / 2^64
         // (spent quantity of the asset, minted, produced in output 0)
-        let cases: Vec<(u64, i128, u64, &str)> = vec![
-            (0, 1, 1, "mint+1/balanced"),
-            (0, 1, 0, "mint+1/not-produced"),
-            (0, 1, 2, "mint+1/produced-2"),
-            (0, 0, 1, "no-mint/produced-1"),
-            (5, 0, 0, "spent-5/not-produced"),
-            (5, 0, 5, "spent-5/produced-5"),
-            (5, -1, 4, "burn-1/balanced"),
-            (5, -1, 5, "burn-1/still-produced"),
-            (0, -1, 0, "burn-absent/-1"),
-            (0, -1, MAX, "burn-absent/-1/produced-2^64-1"),
-            (0, -5, MAX - 4, "burn-absent/-5/produced-2^64-5"),
-            (MAX, 2, 1, "spent-2^64-1/mint+2/produced-1"),
-            (MAX - 1, 3, 1, "spent-2^64-2/mint+3/produced-1"),
-            (U63, 1, U63 + 1, "spent-2^63/mint+1/balanced"),
-            (U63 + 5, -5, U63, "spent-2^63+5/burn-5/balanced"),
-            (U63 - 1, 1, U63, "spent-2^63-1/mint+1/balanced"),
-            (MAX, -1, MAX - 1, "spent-2^64-1/burn-1/balanced"),
-            (3, i64::MIN as i128, 3, "spent-3/mint-min/produced-3"),
-            (0, i64::MAX as i128, i64::MAX as u64, "mint-max/balanced"),
+        // (spent quantity of asset M, minted M, produced M, spent sibling S, produced sibling S, label):
+        // M and S are two asset names under ONE policy
+        let cases: Vec<(u64, i128, u64, u64, u64, &str)> = vec![
+            (0, 1, 1, 0, 0, "mint+1/balanced"),
+            (0, 1, 0, 0, 0, "mint+1/not-produced"),
+            (0, 1, 2, 0, 0, "mint+1/produced-2"),
+            (0, 0, 1, 0, 0, "no-mint/produced-1"),
+            (5, 0, 0, 0, 0, "spent-5/not-produced"),
+            (5, 0, 5, 0, 0, "spent-5/produced-5"),
+            (5, -1, 4, 0, 0, "burn-1/balanced"),
+            (5, -1, 5, 0, 0, "burn-1/still-produced"),
+            (0, -1, 0, 0, 0, "burn-absent/-1"),
+            (0, -1, MAX, 0, 0, "burn-absent/-1/produced-2^64-1"),
+            (0, -5, MAX - 4, 0, 0, "burn-absent/-5/produced-2^64-5"),
+            (MAX, 2, 1, 0, 0, "spent-2^64-1/mint+2/produced-1"),
+            (MAX - 1, 3, 1, 0, 0, "spent-2^64-2/mint+3/produced-1"),
+            (U63, 1, U63 + 1, 0, 0, "spent-2^63/mint+1/balanced"),
+            (U63 + 5, -5, U63, 0, 0, "spent-2^63+5/burn-5/balanced"),
+            (U63 - 1, 1, U63, 0, 0, "spent-2^63-1/mint+1/balanced"),
+            (MAX, -1, MAX - 1, 0, 0, "spent-2^64-1/burn-1/balanced"),
+            (3, i64::MIN as i128, 3, 0, 0, "spent-3/mint-min/produced-3"),
+            (0, i64::MAX as i128, i64::MAX as u64, 0, 0, "mint-max/balanced"),
+            // asset-level (not policy-level) forgeries and disappearances under a policy that is being spent
+            (5, 0, 5, 0, 1000, "sibling/forged-under-spent-policy"),
+            (5, 0, 5, 7, 0, "sibling/vanishes"),
+            (5, 0, 5, 7, 8, "sibling/produced+1"),
+            (5, 0, 5, 7, 7, "sibling/balanced"),
+            (5, 1, 6, 0, 3, "sibling/forged-next-to-mint"),
+            (5, -5, 0, 7, 7, "sibling/burn-entire-quantity/balanced"),
+            (5, -5, 0, 7, 8, "sibling/burn-entire-quantity/sibling+1"),
+            (5, -5, 1, 7, 7, "sibling/burn-entire-quantity/still-produced"),
+            (5, -4, 1, 7, 7, "sibling/burn-partial/balanced"),
         ];
-        let chosen: Vec<_> = if thorough { cases } else { cases.into_iter().enumerate().filter(|(i, _)| i % 2 == 0 || rng.chance(1, 2)).map(|(_, c)| c).collect() };
-        for (inq, mq, outq, label) in chosen {
+        let chosen: Vec<_> = if thorough { cases } else { cases.into_iter().enumerate().filter(|(i, c)| i % 2 == 0 || c.5.starts_with("sibling") || rng.chance(1, 2)).map(|(_, c)| c).collect() };
+        for (inq, mq, outq, sin, sout, label) in chosen {
             let mut c = base.clone();
             // the policy script is only witnessed when something is minted (an unneeded script is rejected)
             let p = if mq != 0 { c.ensure_trivial_policy() } else { Case::trivial_policy().0 };
-            if inq > 0 {
-                if let Some(u) = c.utxo_index_of(0, 0) {
+            if let Some(u) = c.utxo_index_of(0, 0) {
+                if inq > 0 {
                     val_set_asset(c.utxo_value_mut(u).unwrap(), &p, b"M", Cb::uint(inq));
+                }
+                if sin > 0 {
+                    val_set_asset(c.utxo_value_mut(u).unwrap(), &p, b"S", Cb::uint(sin));
                 }
             }
             if mq != 0 {
                 c.add_mint(&p, b"M", mq);
             }
+            let i = c.richest_output();
             if outq > 0 {
-                let i = c.richest_output();
                 val_set_asset(c.out_value_mut(i).unwrap(), &p, b"M", Cb::uint(outq));
             }
+            if sout > 0 {
+                val_set_asset(c.out_value_mut(i).unwrap(), &p, b"S", Cb::uint(sout));
+            }
+            c.pad_fee(6000); // the added script / assets make the transaction larger
             c.resign();
             out.push(m(label, c));
         }
@@ -897,14 +1037,23 @@ pub fn c37(base: &Case, _rng: &mut Rng, _thorough: bool) -> Vec<Mutant> {
     let mut out = vec![];
     let Some((mem, steps)) = redeemer_sums(base) else { return out };
     // the limits move around the transaction's totals (the transaction itself is untouched)
-    for (dm, ds, label) in [(0i64, 0i64, "limit=sum"), (-1, 0, "mem-limit=sum-1"), (0, -1, "steps-limit=sum-1"), (1, 1, "limit=sum+1"), (-1, -1, "limits=sum-1")] {
-        let mut c = base.clone();
-        if (mem as i128 + dm as i128) < 0 || (steps as i128 + ds as i128) < 0 {
-            continue;
+    // every combination of {below, at, above} per dimension, so that each dimension is probed on its own
+    // with the other one strictly inside its limit; each also with the phase-2 validity flag cleared
+    for (dm, dml) in [(-1i64, "mem-limit=sum-1"), (0, "mem-limit=sum"), (1000, "mem-limit=sum+1000")] {
+        for (ds, dsl) in [(-1i64, "steps-limit=sum-1"), (0, "steps-limit=sum"), (1000, "steps-limit=sum+1000")] {
+            for valid in [true, false] {
+                let mut c = base.clone();
+                if (mem as i128 + dm as i128) < 0 || (steps as i128 + ds as i128) < 0 {
+                    continue;
+                }
+                c.env.ov.max_mem = Some((mem as i128 + dm as i128).min(MAX as i128) as u64);
+                c.env.ov.max_steps = Some((steps as i128 + ds as i128).min(MAX as i128) as u64);
+                if !valid {
+                    c.tx.items_mut().unwrap()[2] = Cb::Simple(20, false);
+                }
+                out.push(m(&format!("{}/{}/{}{}", dml, dsl, redeemer_form(base), if valid { "" } else { "/is-valid-false" }), c));
+            }
         }
-        c.env.ov.max_mem = Some((mem as i128 + dm as i128) as u64);
-        c.env.ov.max_steps = Some((steps as i128 + ds as i128) as u64);
-        out.push(m(&format!("{}/{}", label, redeemer_form(base)), c));
     }
     // Conway: the budgets themselves are scaled, in both redeemer encodings (script data hash recomputed)
     if base.era == "conway" {
@@ -928,6 +1077,8 @@ pub fn c37(base: &Case, _rng: &mut Rng, _thorough: bool) -> Vec<Mutant> {
                 (maxm + 1, maxs, "mem-sum=limit+1"),
                 (maxm, maxs + 1, "steps-sum=limit+1"),
                 (maxm.saturating_mul(3), maxs.saturating_mul(3), "sum=3*limit"),
+                (maxm / 2, maxs + 1, "mem-sum<limit/steps-sum=limit+1"),
+                (maxm + 1, maxs / 2, "mem-sum=limit+1/steps-sum<limit"),
             ] {
                 let mut c = base.clone();
                 if !convert_redeemers(&mut c, to_map) {
